@@ -57,6 +57,11 @@
 #define JANET_USE_COMPUTED_GOTOS
 #endif
 
+#ifdef JANET_VERIF
+/* Verification hook H1: use the portable switch dispatch (same opcode bodies). */
+#undef JANET_USE_COMPUTED_GOTOS
+#endif
+
 #ifdef JANET_USE_COMPUTED_GOTOS
 #define VM_START() { goto *op_lookup[first_opcode];
 #define VM_END() }
@@ -70,6 +75,12 @@
 #define VM_OP(op) case op :
 #define VM_DEFAULT() default:
 #define vm_next() opcode = *pc & 0xFF; continue
+#endif
+
+#if defined(JANET_VERIF) && defined(JANET_VERIF_DISPATCH_HOOK)
+/* Verification hook H3: same switch loop, with a harness-defined hook at the loop head. */
+#undef VM_START
+#define VM_START() uint8_t opcode = first_opcode; for (;;) { JANET_VERIF_DISPATCH_HOOK(opcode); switch(opcode) {
 #endif
 
 /* Commit and restore VM state before possible longjmp */
